@@ -149,7 +149,10 @@ def _reader(prop: str, only: str, which) -> List[Obl]:
                                kind=kind, bound=bound, fns=[f"{R}::{f}" for f in fns], only=only,
                                confirm=f"obl_reader::{el}::u8_::c02_confirm_" + name.split(".")[0] if name.split(".")[0] in
                                ("read_bits", "peek_bits", "skip_bits_after_peek", "read_unary", "skip_bits", "set_bit_pos") else ""))
-            if "confirm" in which:
+            # multi-step histories are implied by the one-step obligations (each starts from an arbitrary invariant state and
+            # re-establishes the invariant); the explicit 3-5 step harness is a cross-check kept for the narrow words only
+            # (u32 / u64: more than 35 min of CBMC each, measured)
+            if "confirm" in which and w in ("u8", "u16"):
                 out.append(Obl(id=f"{pl}.two_step.{E}.{w}", prop=prop, engine="kani", target=base + "c02_confirm", tier="thorough",
                                kind="bounded", bound="one symbolic operation followed by two rounds of (optional peek, read) (3-5 step histories)",
                                fns=[f"{R}::*"], only=only))
